@@ -97,9 +97,13 @@ class Sys:
         self.mol_resids = []
         self.mol_pos = []
         nr = rid = 0
+        # one system in seven lies where a coordinate fills its column: beyond 1000 nm or below -100 nm (an unwrapped
+        # trajectory, a very large box); the fields are legal and carry three decimals like all others
+        far = np.array([1100.0, -150.0, 0.0]) * (rng.random(3) < 0.6) if rng.random() < 0.15 else np.zeros(3)
+        self.far = far.tolist()
         for sp in mols:
             d = species[sp]
-            pos = d['rpos'] @ rot(rng).T + rng.uniform(1.0, 8.0, 3) + rng.normal(size=(d['rn'], 3)) * 0.01
+            pos = d['rpos'] @ rot(rng).T + rng.uniform(1.0, 8.0, 3) + far + rng.normal(size=(d['rn'], 3)) * 0.01
             pos = np.array([[float('%.3f' % v) for v in row] for row in pos])
             rids = []
             last = None
@@ -123,7 +127,7 @@ class Sys:
         d = self.species[sp]
         workdir, tag, _ = self.end[sp]
         return synth.make_molecule(os.path.join(workdir, '%s_end_%s' % (tag, sp)), sp, d['tnames'], d['tb'],
-                                   np.array([[float('%.3f' % v) for v in row] for row in d['tpos']]),
+                                   np.array([[float('%.3f' % v) for v in row] for row in d['tpos'] + np.array(self.far)]),
                                    residues=[(d['resn'][r - 1], r) for r in d['tres']])
 
 
